@@ -17,6 +17,10 @@ def run(chk, ctx):
     c07.mask_rules(chk, P, which_list=("expected",), only_widths=(64,))
     from . import lexrules
     lexrules.spelling_rule(chk, P, ("Declare", "Equal", "Semi"))
+    # "evaluated over the outputs the driver returned for that same row": the table the expression reads is rebuilt from
+    # exactly this row's answer (replaced, not merged or filtered; nothing else writes it) — shared with C04
+    from . import c04 as _c04
+    _c04.run(chk.only(("ORG:set_outputs-replaces-map", "ORG:set_outputs-entry", "WHO:outputs-writers", "WHO:set_outputs-callers", "TAB:Expr::Variable", "TAB:EvalContext::get")), ctx)
     chk.explanation = ("C14 decided structurally: ORG/const (with_signals appends one Signal{bits: 64, typ: Virtual{expr}} per declaration, in declaration order), ORD (handle_io: read-call, set_outputs(answer), then the extraction, the only evaluator of virtual expressions), "
                        "PAIR (swap_vars before and after the evaluation on every evaluating path, nothing that could write the swapped-in map in between; alt_vars is only ever swapped, so it is empty), "
                        "PAIR on the parser's declare arm (variable set emptied while the expression is parsed, so every identifier is an output read), TAB (an evaluation error maps to an error item, never unwrapped or defaulted).")
